@@ -33,10 +33,16 @@ VALUE_ERROR_APIS = {"builtins.int", "builtins.float", "builtins.str.index", "bui
                     "builtins.bytes.decode", "json.loads", "json.load", "builtins.bytes.index", "builtins.str.rindex"}
 # broad handlers reachable from rule code today (function -> why it is tolerated / what it hides); confirmed by reading
 SWALLOW_TABLE = {
-    "src.linters.file_header.markdown_parser.MarkdownHeaderParser._parse_yaml_frontmatter": "malformed YAML front matter falls back to the simple key: value parser",
-    "src.linters.dry.typescript_constant_extractor._parse_content": "tree-sitter parse failure while extracting constants -> no constants for that file (best-effort side analysis)",
-    "src.linters.file_placement.linter.FilePlacementRule._load_layout_config": "layout file unreadable -> no rules (reported under C05-K10 / C18-V3)",
+    # scope (class or module; private function names may change) -> why the single broad handler there is tolerated
+    "src.linters.file_header.markdown_parser.MarkdownHeaderParser.": "malformed YAML front matter falls back to the simple key: value parser",
+    "src.linters.dry.typescript_constant_extractor.": "tree-sitter parse failure while extracting constants -> no constants for that file (best-effort side analysis)",
+    "src.linters.file_placement.linter.FilePlacementRule.": "layout file unreadable -> no rules (reported under C05-K10 / C18-V3)",
 }
+
+
+def _swallow_reason(fq: str):
+    hits = [(k, v) for k, v in SWALLOW_TABLE.items() if fq.startswith(k)]
+    return hits[0] if hits else None
 
 
 def check(run, ctx):
@@ -120,13 +126,17 @@ def check(run, ctx):
                         broad = "suppress(Exception)"
             if broad:
                 found[fq] = (broad, f"{f.module.rel}:{n.lineno}")
+    per_scope: dict[str, int] = {}
     for fq, (broad, loc) in sorted(found.items()):
-        if fq in SWALLOW_TABLE:
-            run.ok(E3, fq.replace("src.", "", 1), f"{broad}: {SWALLOW_TABLE[fq]}", nontrivial=False)
+        hit = _swallow_reason(fq)
+        if hit is not None:
+            per_scope[hit[0]] = per_scope.get(hit[0], 0) + 1
+        if hit is not None and per_scope[hit[0]] == 1:   # one tolerated site per scope; a second broad handler there is new
+            run.ok(E3, fq.replace("src.", "", 1), f"{broad}: {hit[1]}", nontrivial=False)
         else:
             run.finding(E3, fq.replace("src.", "", 1), f"new-swallow:{broad}", f"{fq} swallows every exception ({broad}): an internal failure on some input silently drops that analysis", loc)
     for fq in SWALLOW_TABLE:
-        if fq not in found:
+        if not any(q.startswith(fq) for q in found):
             run.ok(E3, fq.replace("src.", "", 1), "frozen swallow site no longer present (table can be trimmed)", nontrivial=False)
     orch_sw = []
     f = repo.func(f"{ORCH}.Orchestrator._safe_check_rule")
@@ -233,13 +243,14 @@ def check(run, ctx):
             pt = str(s_["argtypes"].get(1, ""))
             if "str" not in pt:
                 continue
-            sql = " ".join(str(s_["argtypes"].get(0, "")).split())
-            if not any(sql.upper().startswith(f"LITERAL['{kw}") for kw in ("INSERT", "REPLACE", "UPDATE")):
-                continue  # look-ups bind names that were stored before (the insert would have failed first)
             call = L.idx.call_at(s_["module"], s_["span"])
-            if call is None:
+            if call is None or not call.args:
                 continue
-            sym = f"{fq.replace('src.', '', 1)}:{' '.join(str(s_['argtypes'].get(0, '')).split())[9:45]}"
+            sql_v = repo.fold(f.module, call.args[0], f.cls)   # the statement, written in place or hoisted to a constant
+            sql = " ".join(sql_v.split()) if isinstance(sql_v, str) else " ".join(str(s_["argtypes"].get(0, "")).split()).replace("Literal['", "")
+            if not sql.upper().startswith(("INSERT", "REPLACE", "UPDATE")):
+                continue  # look-ups bind names that were stored before (the insert would have failed first)
+            sym = f"{fq.replace('src.', '', 1)}:{sql[:36]}"
             if is_caught(f.node, call, "ValueError") or is_caught(f.node, call, "UnicodeEncodeError"):
                 run.ok(E9, sym, "under a ValueError/UnicodeError handler")
             elif any(is_call_named(n, "encode") and any(isinstance(k.value, ast.Constant) and k.value.value in ("replace", "backslashreplace", "surrogatepass", "surrogateescape", "ignore") for k in n.keywords) for n in ast.walk(f.node)):
